@@ -138,7 +138,7 @@ P = D.DesignProperty(
     rule=("case = generated design spec with at least one weighted basic factor and its copy-expanded twin; both are exhausted through the "
           "compiled formula; non-trivial = the weighted design has at least one sequence; classes: weighted crossed / uncrossed / both, "
           "weighted level referenced by a derived factor or constraint; distinct = distinct spec JSON"),
-    cfg_quick=CFG, n_quick=60, n_thorough=2000, case_limit=(20, 120),
+    cfg_quick=CFG, n_quick=60, n_thorough=600, case_limit=(20, 120),
     limits={"max_T": {"quick": 7, "thorough": 9}, "max_models": {"quick": 2500, "thorough": 15000}, "max_seqs": {"quick": 600, "thorough": 4000}},
     assumptions=["the twin is a faithful expression of 'w separately named copies reported under the original name' (a within-trial factor reports the name)",
                  "weights on derived levels are outside this property's text and excluded"])
